@@ -16,9 +16,37 @@ type StringValue struct {
 }
 
 func (d *Document) CopyStringValue(ref int) int {
+	if d.StringValues[ref].BlockString {
+		return d.copyBlockStringValue(ref)
+	}
 	return d.AddStringValue(StringValue{
 		BlockString: d.StringValues[ref].BlockString,
 		Content:     d.copyByteSliceReference(d.StringValues[ref].Content),
+	})
+}
+
+// copyBlockStringValue copies a block string together with the raw bytes between its quotes,
+// delimited by one quote on each side: BlockStringValueContentRawBytes recovers the white space
+// around the token by scanning from the token to the nearest quotes in the input, so the copy
+// has to bring its own instead of whatever happens to surround the appended bytes.
+func (d *Document) copyBlockStringValue(ref int) int {
+	content := d.StringValues[ref].Content
+	raw := d.BlockStringValueContentRawBytes(ref)
+	// offset of the token inside the raw content: the scan of BlockStringValueContentRawBytes
+	// starts right in front of the token and stops behind the nearest quote
+	offset := uint32(0)
+	for i := int(content.Start) - 1; i >= 0 && d.Input.RawBytes[i] != '"'; i-- {
+		offset++
+	}
+	dst := make([]byte, 0, len(raw)+2)
+	dst = append(dst, '"')
+	dst = append(dst, raw...)
+	dst = append(dst, '"')
+	appended := d.Input.AppendInputBytes(dst)
+	start := appended.Start + 1 + offset
+	return d.AddStringValue(StringValue{
+		BlockString: true,
+		Content:     ByteSliceReference{Start: start, End: start + content.Length()},
 	})
 }
 
